@@ -5,6 +5,7 @@ import (
 	"errors"
 	"fmt"
 	"io"
+	"net/mail"
 	"os"
 
 	"github.com/inbucket/inbucket/v3/pkg/config"
@@ -118,6 +119,7 @@ func (h *Host) wireFunctions(logger zerolog.Logger, ls *lua.LState) {
 }
 
 func (h *Host) handleAfterMessageDeleted(msg event.MessageMetadata) {
+	isolateMessageMetadata(&msg)
 	logger, ls, ib, ok := h.prepareInbucketFuncCall("after.message_deleted")
 	if !ok {
 		return
@@ -135,6 +137,7 @@ func (h *Host) handleAfterMessageDeleted(msg event.MessageMetadata) {
 }
 
 func (h *Host) handleAfterMessageStored(msg event.MessageMetadata) {
+	isolateMessageMetadata(&msg)
 	logger, ls, ib, ok := h.prepareInbucketFuncCall("after.message_stored")
 	if !ok {
 		return
@@ -152,6 +155,7 @@ func (h *Host) handleAfterMessageStored(msg event.MessageMetadata) {
 }
 
 func (h *Host) handleBeforeMailFromAccepted(session event.SMTPSession) *event.SMTPResponse {
+	isolateSMTPSession(&session)
 	logger, ls, ib, ok := h.prepareInbucketFuncCall("before.mail_from_accepted")
 	if !ok {
 		return nil
@@ -180,6 +184,7 @@ func (h *Host) handleBeforeMailFromAccepted(session event.SMTPSession) *event.SM
 }
 
 func (h *Host) handleBeforeRcptToAccepted(session event.SMTPSession) *event.SMTPResponse {
+	isolateSMTPSession(&session)
 	logger, ls, ib, ok := h.prepareInbucketFuncCall("before.rcpt_to_accepted")
 	if !ok {
 		return nil
@@ -208,6 +213,7 @@ func (h *Host) handleBeforeRcptToAccepted(session event.SMTPSession) *event.SMTP
 }
 
 func (h *Host) handleBeforeMessageStored(msg event.InboundMessage) *event.InboundMessage {
+	isolateInboundMessage(&msg)
 	logger, ls, ib, ok := h.prepareInbucketFuncCall("before.message_stored")
 	if !ok {
 		return nil
@@ -256,4 +262,44 @@ func (h *Host) prepareInbucketFuncCall(funcName string) (logger zerolog.Logger, 
 	}
 
 	return logger, ls, ib, true
+}
+
+// Lua scripts may write through the objects they are handed (msg.from.address = ...).  The
+// event structs arrive by value, but their address fields still point at data owned by the
+// caller and shared with other listeners, so each handler first replaces them with copies:
+// a script that fails, or does not respond, then leaves no trace.
+
+func cloneAddress(a *mail.Address) *mail.Address {
+	if a == nil {
+		return nil
+	}
+	c := *a
+	return &c
+}
+
+func cloneAddresses(as []*mail.Address) []*mail.Address {
+	if as == nil {
+		return nil
+	}
+	cs := make([]*mail.Address, len(as))
+	for i, a := range as {
+		cs[i] = cloneAddress(a)
+	}
+	return cs
+}
+
+func isolateInboundMessage(msg *event.InboundMessage) {
+	msg.Mailboxes = append([]string(nil), msg.Mailboxes...)
+	msg.From = cloneAddress(msg.From)
+	msg.To = cloneAddresses(msg.To)
+}
+
+func isolateMessageMetadata(msg *event.MessageMetadata) {
+	msg.From = cloneAddress(msg.From)
+	msg.To = cloneAddresses(msg.To)
+}
+
+func isolateSMTPSession(session *event.SMTPSession) {
+	session.From = cloneAddress(session.From)
+	session.To = cloneAddresses(session.To)
 }
